@@ -140,8 +140,9 @@ fn check_text(c: &TextCase, obs: &mut Obs) -> Verdict {
 
 fn strat(tier: Tier) -> BoxedStrategy<Case> {
     prop_oneof![
-        4 => seq_case_k(tier.pick(100, 300), true, 3, true).prop_map(Case::Seq),
-        1 => text_case_mix(tier.pick(120, 160)).prop_map(Case::Text),
+        16 => seq_case_k(tier.pick(100, 300), true, 3, true).prop_map(Case::Seq),
+        4 => text_case_mix(tier.pick(120, 160)).prop_map(Case::Text),
+        1 => big_line_case(tier.pick(130, 300)).prop_map(Case::Text),
     ]
     .boxed()
 }
